@@ -144,6 +144,62 @@ def h_expr(o0: int, o1: int, o2: int, o3: int, o4: int, o5: int, o6: int,
     return None
 
 
+def ref_chain(vals, ops):
+    """reference for a flat chain  v0 op1 v1 op2 v2 ...  : repeatedly reduce the leftmost operator of the highest documented
+    precedence (left association) - written independently of both the tree evaluator above and mwlib's shunting-yard"""
+    vals, ops = list(vals), list(ops)
+    while ops:
+        best = 0
+        for i in range(1, len(ops)):
+            if PREC[ops[i]] > PREC[ops[best]]:
+                best = i
+        a, b = vals[best], vals[best + 1]
+        if ops[best] == "mod":
+            assume(a >= 0 and b > 0)
+        vals[best:best + 2] = [ref_apply(ops[best], a, b)]
+        del ops[best]
+    return vals[0]
+
+
+def h_chain(o1: int, o2: int, o3: int, v0: int, v1: int, v2: int, v3: int, u: int, n: int):
+    """v0 op1 [unary] v1 op2 v2 op3 v3 without parentheses: precedence and left association decide the grouping"""
+    from mwlib.parser import expr as X
+
+    nb = len(BIN)
+    ops = [BIN[choose(o, nb)][0] for o in (o1, o2, o3)][:n]
+    vals = [v0, v1, v2, v3][:n + 1]
+    for v in vals:
+        assume(0 <= v < 10)
+    un = [None, "neg", "abs", "not"][choose(u, 4)]
+    rvals = list(vals)
+    if un:
+        rvals[1] = ref_apply(un, vals[1])
+    want = ref_chain(rvals, ops)
+    toks, text = [(str(vals[0]), "")], [str(vals[0])]
+    for i, op in enumerate(ops):
+        toks.append(("", op))
+        text.append(" " + op + " ")
+        if i == 0 and un:
+            toks.append(("", "-" if un == "neg" else un))
+            text.append("-" if un == "neg" else un + " ")
+        toks.append((str(vals[i + 1]), ""))
+        text.append(str(vals[i + 1]))
+    saved = X.tokenize
+    X._cache.clear()
+    X.tokenize = lambda s_: list(toks)
+    try:
+        try:
+            got = X.Expr().parse_expr("x")
+        except Exception as e:
+            return {"sig": "expr|" + type(e).__name__, "expression": "".join(text), "expected": want, "detail": str(e)[:120]}
+    finally:
+        X.tokenize = saved
+        X._cache.clear()
+    if got != want:
+        return {"sig": "expr|wrong-value|chain", "expression": "".join(text), "expected": want, "got": got}
+    return None
+
+
 def h_format(v: int, neg: bool):
     """#expr renders an integer value as its decimal integer"""
     from mwlib.parser import expr as X
@@ -196,6 +252,9 @@ def build_spec(tier):
         for left in range(len(OPS)):
             cubes.append(Cube(f"expr depth {depth} root={OPS[root]} left={OPS[left]}", h_expr_noroot, params, {"depth": depth, "root": root, "o1": left},
                               timeout=tmo, per_path_timeout=20, group="expr:" + OPS[root]))
+    cp = {"o2": int, "o3": int, "v0": int, "v1": int, "v2": int, "v3": int, "u": int}
+    for o1 in range(len(BIN)):
+        cubes.append(Cube(f"chain v0 {BIN[o1][0]} [unary] v1 op v2 op v3", h_chain, cp, {"o1": o1, "n": 3}, timeout=tmo * 2, per_path_timeout=20, group="chain"))
     cubes.append(Cube("format of integer results", h_format, {"v": int, "neg": bool}, {}, timeout=120, group="format"))
     cubes.append(Cube("twin: precedence distinguishes groupings", twin_prec, {"v0": int, "v1": int, "v2": int}, {}, timeout=60, role="twin"))
     return CheckSpec(
@@ -205,6 +264,7 @@ def build_spec(tier):
         functions=[X.Expr.parse_expr, X.Expr._process_expression_elements, X.Expr._convert_to_unary_operator, X.Expr._handle_closing_parenthesis, X.addop,
                    (X.__file__, "expr.py operator table (precedence, functions, unary_ops)"), getattr(magics.ParserFunctions, "#EXPR")],
         bounds={"expression trees": f"full binary trees of depth <= {depth}, every slot one of {OPS}", "literals": "symbolic integers 0 <= v < 10 (larger and negative values arise through the operators)",
+                "flat chains": "v0 op1 [neg|abs|not] v1 op2 v2 op3 v3 without parentheses, all three binary operators symbolic",
                 "parentheses": "minimal (by documented precedence / left association) or around every sub-expression (symbolic bool)", "mod": "non-negative dividend, positive divisor"},
         stubs=["expr.tokenize (regex over the text) replaced by the token list of the serialised tree; expr._cache cleared per path"],
         assumptions=["reference evaluator and serialiser in harness/c04_semantics.py implement the documented precedence table and left association (MediaWiki Help:Calculation)",
